@@ -280,3 +280,92 @@ def replay_router_send_multipart_flags(model, params, role):
         return "router_multipart_flags\n", (lambda out: "SPLIT" in out), \
             "ROUTER.send_multipart([id, \"a\", \"b\"]) without MORE flags to a DEALER over tcp; expecting the payload to arrive as more than one message"
     return None
+
+
+def send_multipart_flags(h):
+    """{PushSocket, PubSocket, DealerSocket}::send_multipart (coroutine MIR) with 1..3 frames whose MORE flags are
+    arbitrary: what is handed on (to the routing / fan-out / DEALER send path, which are hooks that record it) must be
+    the same frames in order, for DEALER behind the empty delimiter, with MORE on every frame but the last."""
+    from .d_c09 import Fut, _lock
+    from .d_c07 import _frames, _flag
+    from ..models import some, none, ok, err, dur_ns, _deref, MapV
+    prog = h.it.prog
+    kind = h.choose(3, "socket_type")               # 0 PUSH, 1 PUB, 2 DEALER
+    n = 1 + h.choose(3, "frames")
+    fb = Ref(Cell(h.method("message::FrameBatch", "new"), "fb"), ())
+    for i in range(n):
+        h.method("message::FrameBatch", "push", fb, _mk_msg(h, 0x60 + i, h.choose(2, f"more{i}") == 1))
+    h.it.hooks["socket::core::SocketCore::is_running"] = lambda it2, a, d, f: True
+    cf = prog.struct_fields("socket::core::SocketCore")
+    core_vals = [Opaque(f) for f in cf]
+    csf = prog.struct_fields("socket::core::state::CoreState")
+    cs_vals = [Opaque(f) for f in csf]
+    of = prog.struct_fields("socket::options::SocketOptions")
+    o_vals = [Opaque(f) for f in of]
+    o_vals[of.index("sndtimeo")] = none()
+    o_vals[of.index("sndhwm")] = 4
+    options = Agg("socket::options::SocketOptions", o_vals)
+    cs_vals[csf.index("options")] = BoxV(Cell(options, "options"), ())
+    core_vals[cf.index("core_state")] = _lock(Agg("socket::core::state::CoreState", cs_vals))
+    core_vals[cf.index("handle")] = 1
+    core = BoxV(Cell(Agg("socket::core::SocketCore", core_vals), "core"), ())
+    handed = []
+    def capture(idx):
+        def hook(it, args, dty, func):
+            handed.append(args[idx])
+            return Agg("{future}", ["downstream"])
+        return hook
+    def extern(it, plain, args, dty, func):
+        if plain.endswith("Future>::poll"):
+            fut = _deref(args[0])
+            while isinstance(fut, BoxV):
+                fut = _deref(fut.load())
+            if isinstance(fut, Agg) and fut.ty == "{future}":
+                return Enum("std::task::Poll", 0, "Ready", [ok(UNIT)])
+            return NotImplemented
+        if plain in ("tokio::time::Instant::now", "std::time::Instant::now"):
+            from ..models import instant_ns
+            return instant_ns(1000)
+        if "ArcSwap" in plain and plain.endswith("::load"):
+            return Ref(Cell(BoxV(Cell(options, "options"), ()), "guard"), ())
+        if plain.endswith("IntoFuture>::into_future") or plain.startswith("std::pin::Pin::"):
+            return args[0]
+        return NotImplemented
+    h.it.extern = extern
+    h.panic_role = "c02.send-multipart"
+    delimiter = False
+    if kind == 0:
+        TY = "socket::push_socket::PushSocket"
+        h.it.hooks[prog.resolve_method("", TY, "send_with_timeout", None)] = capture(1)
+        vals = {"core": core, "cached_options": Agg("{arcswap}", [BoxV(Cell(options, "options"), ())])}
+    elif kind == 1:
+        TY = "socket::pub_socket::PubSocket"
+        h.it.hooks[prog.resolve_method("", "socket::patterns::distributor::Distributor", "send_to_all_multipart", None)] = capture(1)
+        vals = {"core": core}
+    else:
+        TY = "socket::dealer_socket::DealerSocket"
+        h.it.hooks[prog.resolve_method("", TY, "send_logical_message", None)] = capture(1)
+        idle = Enum("socket::dealer_socket::DealerSendTransaction", 0, "Idle", [])
+        from ..interp import FnItem
+        framing = h.method("socket::patterns::framing::FramingLatch", "new",
+                           FnItem("socket::patterns::framing::dealer_auto_encode"), FnItem("socket::patterns::framing::dealer_auto_decode"))
+        vals = {"core": core, "current_send_transaction": Agg("{amutex}", [False, idle]), "framing": framing}
+        delimiter = True
+    fields = prog.struct_fields(TY)
+    sock = Ref(Cell(Agg(TY, [vals.get(f, Opaque(f)) for f in fields]), "sock"), ())
+    f = Fut(h, TY, "send_multipart", [sock, fb.load()], trait="ISocket")
+    r = f.poll()
+    h.check(r is not None and r.idx == 0, "c02.send-multipart.call-did-not-complete", "pending" if r is None else repr(r)[:100])
+    if r is None or r.idx != 0:
+        return
+    h.check(len(handed) == 1, "c02.send-multipart.handed-on-in-several-pieces", str(len(handed)))
+    if len(handed) != 1:
+        return
+    out = _frames(handed[0])
+    tags = [_tag(m) for m in out]
+    fl = [bool(_flag(m, 1)) for m in out]
+    want = ([None] if delimiter else []) + [0x60 + i for i in range(n)]
+    name = ["PUSH", "PUB", "DEALER"][kind]
+    h.check(tags == want, "c02.send-multipart.frames-differ", f"{name}: handed on {tags}, expected {want}")
+    h.check(fl == [True] * (len(out) - 1) + [False], "c02.send-multipart.more-flags-wrong", f"{name}: MORE flags {fl} for {len(out)} frame(s)")
+    h.cover("c02.send-multipart." + name.lower())
